@@ -31,9 +31,14 @@ def _argv_cwd(argv, cwd):
         os.chdir(old_cwd)
 
 
+_NO_CONFIG_RAW = object()
+
+
 def generate(d, process, sensor, cal, scratch, name, *, cse=True, filtering=5.0, max_dt=0.1, kind="ekf", rng=None, container="set",
-             raw_noise=False, config_as_dict=False, noise_keys="same", model_obj=None, symbol_assumptions=None):
-    """returns paths; raises whatever the generator raises"""
+             raw_noise=False, config_as_dict=False, noise_keys="same", model_obj=None, symbol_assumptions=None, namespace="verifns",
+             config_raw=_NO_CONFIG_RAW, raw_maps=None):
+    """returns paths; raises whatever the generator raises.  `raw_maps`: optional {"sensor_models": ..., "sensor_noises": ...} handed to
+    the generator exactly as given (e.g. readings and noises keyed with different spellings of the same names)"""
     from formak import cpp
     root = os.path.join(scratch, name)
     os.makedirs(os.path.join(root, "generated", "formak"), exist_ok=True)
@@ -45,16 +50,21 @@ def generate(d, process, sensor, cal, scratch, name, *, cse=True, filtering=5.0,
     cfg = cpp.Config(common_subexpression_elimination=cse, innovation_filtering=filtering, max_dt_sec=max_dt)
     if config_as_dict:     # the entry points also take the configuration as a plain dict (the repository's generator scripts do)
         cfg = {"common_subexpression_elimination": cse, "innovation_filtering": filtering, "max_dt_sec": max_dt}
+    if config_raw is not _NO_CONFIG_RAW:   # hand the entry point exactly this `config` argument (None, a partial dict, ...)
+        cfg = config_raw
     # the noise map may key its readings by Symbol where the sensor model keys them by str (names are what counts)
     nk = (lambda r_: sympy.Symbol(r_)) if noise_keys == "symbol" else (lambda r_: r_)
     cal_map = {am.get(s, s): float(cal[s.name]) for s in d.calibration}
-    with _argv_cwd(["generator.py", "--header", header, "--source", source, "--namespace", "verifns"], core.REPO), \
+    raw_maps = raw_maps or {}
+    with _argv_cwd(["generator.py", "--header", header, "--source", source, "--namespace", namespace], core.REPO), \
             contextlib.redirect_stdout(io.StringIO()):
         if kind == "ekf":
             r = cpp.compile_ekf(
                 m, process_noise={sy(n): (v if raw_noise else float(v)) for n, v in process.items()},
-                sensor_models={k: {r_: sympy.sympify(e).xreplace(am) for r_, e in rd.items()} for k, rd in d.sensors.items()},
-                sensor_noises={k: {nk(r_): (v if raw_noise else float(v)) for r_, v in rd.items()} for k, rd in sensor.items()},
+                sensor_models=raw_maps["sensor_models"] if "sensor_models" in raw_maps else
+                {k: {r_: sympy.sympify(e).xreplace(am) for r_, e in rd.items()} for k, rd in d.sensors.items()},
+                sensor_noises=raw_maps["sensor_noises"] if "sensor_noises" in raw_maps else
+                {k: {nk(r_): (v if raw_noise else float(v)) for r_, v in rd.items()} for k, rd in sensor.items()},
                 calibration_map=cal_map, config=cfg)
         else:
             r = cpp.compile(m, calibration_map=cal_map, config=cfg)
